@@ -60,7 +60,7 @@ def main():
     ctx = common.Ctx(pid, args.tier, seed)
     obl = common.check_obligations_multi([pid] + EXTRA_PROPS.get(pid, []), None)
     if args.tier == 'thorough' and not obl['problems']:
-        obl = common.coqchk(pid, obl)
+        obl = common.coqchk([pid] + EXTRA_PROPS.get(pid, []), obl)
     try:
         mod = importlib.import_module(modname)
         mod.run(ctx)
